@@ -100,18 +100,27 @@ let () =
       let line = input_line ic in
       let toks = Array.of_list (List.filter (fun s -> s <> "") (String.split_on_char ' ' line)) in
       if Array.length toks > 0 then begin
-        let op = op_of_string toks.(0) in
-        let eps = eps_of toks.(1) in
         let nd = int_of_string toks.(2) in
         let dims = List.init nd (fun i -> nat_of_int (int_of_string toks.(3 + i))) in
         let nn = int_of_string toks.(3 + nd) in
         let xs = List.init nn (fun i -> q_of_tok toks.(4 + nd + i)) in
+        if toks.(0) = "arr" then begin
+          (* array program: first dim is the family, numbers are integers n/1 *)
+          let zs = List.map (function Some q -> q.qnum | None -> Z0) xs in
+          let fam = match dims with O :: _ -> Z0 | _ -> Zpos XH in
+          let res = run_arr fam (List.tl dims) zs in
+          Buffer.add_string out "OK";
+          List.iter (fun z -> Buffer.add_char out ' ';
+                      Buffer.add_string out (tok_of_q (Some { qnum = z; qden = XH }))) res
+        end else begin
+        let op = op_of_string toks.(0) in
+        let eps = eps_of toks.(1) in
         let (st, res) = runQ eps op dims xs in
         (match st with
          | Z0 ->
              Buffer.add_string out "OK";
              List.iter (fun o -> Buffer.add_char out ' '; Buffer.add_string out (tok_of_q o)) res
-         | _ -> Buffer.add_string out "NONE");
+         | _ -> Buffer.add_string out "NONE") end;
         Buffer.add_char out '\n'
       end
     done
